@@ -346,13 +346,22 @@ def step (d : Drv) (line : String) : Drv × String :=
     (match mkAddr kv with
     | .error e => (d, s!"exc {e.name}")
     | .ok a => ({ d with tl := some (TL.init (parseCfg kv) a) }, "ok|started=0 clean=1"))
+  | ["tl", "bus", id, ext, hex] =>
+    -- a frame the user's rxfn will return (what a stopped layer's own `process()` reads, what the reading thread of a started one reads)
+    (match d.tl, id.toNat?, parseHex hex with
+    | some t, some id, some data =>
+      ({ d with tl := some { t with bus := t.bus ++ [{ id := id, ext := parseBool ext, data := data }] } },
+       s!"ok|started={b01 t.started} clean=?")
+    | _, _, _ => (d, "bad-op"))
   | ["tl", op] =>
     (match d.tl with
     | none => (d, "bad-tl")
     | some t =>
       let fin := fun (t' : TL) (e : Option PyExc) (showClean : Bool) =>
         let res := match e with | some x => s!"exc {x.name}" | none => "ok"
-        ({ d with tl := some t' }, s!"{res}|started={b01 t'.started} clean={if showClean then b01 t'.clean else "?"}")
+        -- "idle": `TL.clean` and no Flow Control owed or held (`C14.stop_fresh` proves both for every `stop()`)
+        let idle := t'.clean && !t'.core.pendingFc && t'.core.lastFc.isNone
+        ({ d with tl := some t' }, s!"{res}|started={b01 t'.started} clean={if showClean then b01 idle else "?"}")
       match op with
       | "start" => let (t', e) := t.start; fin t' e false
       | "stop" => let (t', e) := t.stop; fin t' e true
@@ -362,6 +371,8 @@ def step (d : Drv) (line : String) : Drv × String :=
       | "stop_sending" => let (t', e) := t.stopSending; fin t' e false
       | "stop_receiving" => let (t', e) := t.stopReceiving; fin t' e false
       | "process" => let (t', e) := t.process true true; fin t' e false
+      | "process_rx" => let (t', e) := t.process true false; fin t' e false
+      | "process_tx" => let (t', e) := t.process false true; fin t' e false
       | "reset" => let (t', e) := t.reset; fin t' e false
       | "sleep" => fin t none false
       | _ => (d, "bad-op"))
